@@ -48,6 +48,26 @@ Theorem C06_step_refines : forall J (j0 : J) jstep jout dk rate st a op,
 Proof. intros. apply (step_refines J j0); assumption. Qed.
 Print Assumptions C06_step_refines.
 
+(* Beyond the 8192 scope: extended highest sequence number (with cycles), LSR,
+   DLSR and jitter equal the recount on EVERY history whose arrivals stay
+   within 2^15 of the highest so far (any reordering depth and any forward
+   jump below 2^15, any number of cycles, any report placement); only the two
+   loss fields need the 8192 history. *)
+Theorem C06_ext_lsr_dlsr_jitter_half_range : forall J j0 jstep jout dk rate ops,
+  in_half_scope J jstep jout dk rate (a_init J j0) ops ->
+  map proj4 (r_run J jstep jout dk rate (r_init J j0) (map wrap_aop ops)) =
+  map proj4 (a_run J jstep jout dk rate (a_init J j0) ops).
+Proof. intros. apply (run4 J j0); [apply rel4_init|assumption]. Qed.
+Print Assumptions C06_ext_lsr_dlsr_jitter_half_range.
+
+Example C06_half_range_nonvacuous :
+  in_half_scope unit (fun _ _ _ _ => tt) (fun _ => 0) (fun d => d) 0 (a_init unit tt)
+    [ARtp 0 100 0; ARtp 1 30000 0; ARtp 2 60000 0; ARtp 3 90000 0; ARtp 4 70000 0; ARep 5] /\
+  map proj4 (a_run unit (fun _ _ _ _ => tt) (fun _ => 0) (fun d => d) 0 (a_init unit tt)
+    [ARtp 0 100 0; ARtp 1 30000 0; ARtp 2 60000 0; ARtp 3 90000 0; ARtp 4 70000 0; ARep 5]) = [(90000, 0, 0, 0)].
+Proof. split; [cbn; repeat split|vm_compute; reflexivity]. Qed.
+Print Assumptions C06_half_range_nonvacuous.
+
 (* wrap safety of the jitter input: adding any constant (mod 2^32) to every
    RTP timestamp of any history (in scope or not) leaves every report unchanged *)
 Theorem C06_jitter_shift_invariant : forall J j0 jstep jout dk rate c ops,
